@@ -127,3 +127,34 @@ class RefCheck:
         self.v.coverage.update(cov)
         self.v.assumptions += list(assumptions)
         return self.v.finish()
+
+
+def raw_suite(self, name, cases, max_report=3):
+    """cases: list of dicts {id, program, expect_class, expect_stdout (optional), finding (optional id)}.
+    Programs whose oracle is stated directly by the property (e.g. "is rejected")."""
+    if not cases:
+        return
+    outs = common.run_programs(self.exe, [c["program"] for c in cases], timeout=5)
+    self.evals += len(cases)
+    self.dist[name] = self.dist.get(name, 0) + len(cases)
+    listed = {f["id"] for f in all_findings() if f["property"] == self.pid}
+    for c, o in zip(cases, outs):
+        self.nontrivial.add((name, c["id"]))
+        ok = o[1] == c["expect_class"] and ("expect_stdout" not in c or o[0] == c["expect_stdout"])
+        if ok:
+            continue
+        fid = c.get("finding")
+        if fid and fid in listed:
+            self.cell_known[fid] = self.cell_known.get(fid, 0) + 1
+            continue
+        if self.reported >= max_report + 3:
+            continue
+        self.reported += 1
+        self.v.violation("suite %s case %s: expected exit class %s%s, got %s / %r" % (
+            name, c["id"], c["expect_class"], (" and stdout %r" % c["expect_stdout"]) if "expect_stdout" in c else "",
+            o[1], o[0][-120:]),
+            {"suite": name, "case": c["id"], "program": c["program"], "expected_class": c["expect_class"],
+             "expected_stdout": c.get("expect_stdout"), "impl_stdout": o[0], "impl_exit_class": o[1], "impl_stderr": o[2]})
+
+
+RefCheck.raw_suite = raw_suite
